@@ -778,12 +778,30 @@ func ruleR117(c *Ctx) {
 			}
 		}
 		visit(f)
+		// a helper method that the call launches (go p.signalWhenComplete(ch)) belongs to the call as well
+		seenHelper := map[*FuncInfo]bool{}
+		helperSite := map[*FuncInfo]ast.Node{}
+		ast.Inspect(f.Body, func(m ast.Node) bool {
+			if cl, ok := m.(*ast.CallExpr); ok {
+				if cf := p.byObj[callee(info(f), cl)]; cf != nil && cf.Pkg == f.Pkg && cf.Body != nil && cf != f && !seenHelper[cf] && recvNamed(cf.Obj) == r {
+					seenHelper[cf] = true
+					helperSite[cf] = cl
+					visit(cf)
+				}
+			}
+			return true
+		})
 		if len(lockCalls) == 0 {
 			continue
 		}
 		for i, cl := range lockCalls {
 			n++
 			once := underOnce(p, lockFns[i], cl)
+			if site := helperSite[lockFns[i].Root()]; site != nil && !once {
+				if sf := p.EnclosingFunc(site); sf != nil {
+					once = underOnce(p, sf, site)
+				}
+			}
 			c.Check(!once, lockFns[i], cl, "observation of the completion lock in "+r.Obj().Name()+".WaitUntilComplete", what, ifElse(!once, "made by a goroutine of this call", "made inside sync.Once.Do: once per instance"))
 		}
 	}
